@@ -25,7 +25,8 @@ from . import c12_more
 from . import c12_cov
 
 PROPERTY = 'C12'
-LEAN_TARGETS = ['CpProofs.C12', 'drv_c12']
+LEAN_TARGETS = ['CpProofs.C12', 'CpProofs.C12Log', 'CpProofs.C12Norm', 'CpProofs.C12Cookie', 'CpProofs.C12Decode',
+                'drv_c12']
 DRIVER = 'drv_c12'
 THEOREMS = [
     'CpProofs.C12.deleteTable_covers_controls',
@@ -58,6 +59,36 @@ THEOREMS = [
     'CpProofs.C12.C12_log_quote_strong_false',
     'CpProofs.C12.undouble_strong',
     'CpProofs.C12.C12_log_quote_strong_partial',
+    # round 2: access log with custom formats / with the proposed backslash guard
+    'CpProofs.C12.C12_log_custom_format_single_line',
+    'CpProofs.C12.guard_good',
+    'CpProofs.C12.undouble_strongEven',
+    'CpProofs.C12.C12_log_guarded_strong',
+    'CpProofs.C12.C12_log_guarded_printable',
+    'CpProofs.C12.C12_log_line_strong_guarded',
+    'CpProofs.C12.accessLogFormat_no_backslash',
+    # round 2: header-name normalisation (str.title), valid_status
+    'CpProofs.C12.caseTable_ascii_letters',
+    'CpProofs.C12.C12_title_no_new_ascii_nonletter',
+    'CpProofs.C12.ascii_case_facts',
+    'CpProofs.C12.C12_title_ascii_idempotent',
+    'CpProofs.C12.C12_title_idempotent_full_false',
+    'CpProofs.C12.C12_title_ascii_case_insensitive',
+    'CpProofs.C12.responseReasons_printable',
+    'CpProofs.C12.C12_valid_status_reason_origin',
+    'CpProofs.C12.C12_status_raw_clean',
+    # round 2: http.cookies, Content-Disposition
+    'CpProofs.C12.C12_urlQuote_safe',
+    'CpProofs.C12.C12_content_disposition_ext_safe',
+    'CpProofs.C12.content_disposition_quote_unescaped',
+    'CpProofs.C12.C12_cookie_value_no_separator',
+    'CpProofs.C12.cookieXlate_shapes',
+    'CpProofs.C12.C12_cookie_value_roundtrip',
+    'CpProofs.C12.C12_morsel_value_confined',
+    'CpProofs.C12.morsel_attr_value_injects',
+    # round 2: request-side RFC 2047 reader against the response-side writer
+    'CpProofs.C12.C12_emitted_word_reads_back',
+    'CpProofs.C12.C12_decoded_word_emitted_clean',
 ]
 LEVEL = 'proof'
 TECHNIQUE = ('Lean 4 proof over a byte-level model of header encoding, finalize, error/redirect page rendering and '
@@ -67,19 +98,29 @@ LEVEL_TEXT = ('Proved in Lean for ALL Unicode strings (no bound): every byte of 
               'every HeaderMap.output() tuple, of the status line and of every cookie tuple of the repaired '
               'Response.finalize is >= 32 and != 127, with exactly one tuple per header item and per morsel; '
               'non-Latin-1 text becomes one RFC 2047 word, untouched by the delete step, whose own-base64 + core-UTF-8 '
-              'decoding is the original; in the rendered error page (any template), the failed-custom-page message and '
-              'the redirect page every <, > and attribute delimiter comes from a literal and unescape(escape s) = s; '
-              'every access-log atom and line is printable ASCII with every atom-born double quote preceded by an '
-              'atom-born backslash. Proved false with witnesses: cleanliness of the pre-fix finalize assembly (F12) and '
-              'the "odd number of backslashes before a quote" reading of the log clause (F13), each with its partial '
-              'theorem. Correspondence only: str.title(), valid_status, http.cookies, email.header on the request side, '
-              'working custom error pages.')
+              'decoding is the original, and which the model of the code\'s own request-side reader (decode_TEXT_maybe, '
+              'one word) decodes to the original; in the rendered error page (ANY template, so custom error_page '
+              'templates too), the failed-custom-page message and the redirect page every <, > and attribute delimiter '
+              'comes from a literal and unescape(escape s) = s; every access-log atom and line (ANY format with printable '
+              'literals) is printable ASCII with every atom-born double quote preceded by an atom-born backslash. '
+              'Models with tables regenerated from the live functions: str.title() (no ASCII non-letter is ever created; '
+              'total, idempotent and case-insensitive on ASCII; idempotence proved FALSE beyond ASCII with a witness), '
+              'valid_status (reason = part of the status set or a printable default), http.cookies value quoting (no '
+              '; , control or DEL for any value; the quoted form reads back; a value cannot add an attribute to '
+              'Morsel.output()), urllib.parse.quote / the filename* parameter of Content-Disposition. Proved false with '
+              'witnesses: cleanliness of the pre-fix finalize assembly (F12); the "odd number of backslashes before a '
+              'quote" reading of the log clause for the code as it is (F13), with its partial theorem, and proved TRUE for '
+              'every atom and line with the proposed backslash guard (model follows a probed flag). Observations beyond '
+              'the statement, as theorems with witnesses: filename="..." of Content-Disposition and cookie ATTRIBUTE '
+              'values are not quoted. Correspondence only: email.header beyond one encoded word, NFKC, int() beyond ASCII '
+              'digits, what a working custom error_page callable returns (the escaped values it is handed are compared).')
 LEVEL_NOTE = ('Trusted: Lean kernel, the hand model as validated by the differential run (emitted bytes of status '
               'line, header tuples, page bodies, log lines), the harness, CPython semantics of bytes.translate, '
               'repr(bytes), str.replace, %-formatting and str.format.')
 TRUSTED_BASE = [
-    'http.cookies.Morsel.output, str.title, httputil.valid_status, email.header.decode_header are inputs of the '
-    'model (their results are read from the live response object), not modelled',
+    'for whole requests the inputs of the emission step (status, header-map items, morsel output strings) are read '
+    'from the live response object; str.title, valid_status, http.cookies quoting, Morsel.output and one-word RFC 2047 '
+    'decoding are modelled separately (tables regenerated by running the live functions) and compared per case',
     'CPython semantics of bytes.translate, repr(bytes), str.replace, %-formatting, str.format, html.escape, '
     'saxutils.quoteattr as transcribed by hand and compared on every generated case',
 ]
@@ -173,11 +214,11 @@ WSGI_SINKS = [
     # round 2: every further place where request-derived (or configuration) text reaches a header, a page or the log
     ('xff', 5), ('xfproto', 3), ('resphdr', 3), ('allow', 3), ('autovary', 3), ('cdisp', 6), ('static', 4),
     ('realm', 3), ('basiclogin', 5), ('sesscfg', 4), ('ckname', 2), ('errtpl', 5), ('errcall', 4), ('tb_exc', 5),
-    ('hostlog', 3),
+    ('hostlog', 3), ('hdrname400', 3), ('cookiehdr', 4), ('slashextra', 3),
 ]
 # how a request-header payload travels: as it is, or as an RFC 2047 encoded word whose DECODED text is the payload
 # (process_headers strips the raw value, then decodes: CR/LF/NUL inside the decoded text survive)
-VIAS = ['raw', 'raw', 'b', 'q', 'ql']
+VIAS = ['raw', 'raw', 'b', 'q', 'ql', 'bad']
 VIA_SINKS = ('echo', 'sesspath', 'referer', 'agent', 'hostredir', 'proxybase', 'xff', 'xfproto', 'hostlog', 'static')
 # access-log formats (LogManager.access_log_format is configuration; the atoms i, z, o only appear in custom ones)
 LOG_FORMATS = [None, None, None,
@@ -217,6 +258,10 @@ def enc_req(p, via):
     """The octets (as the Latin-1 str a WSGI server hands over) that carry payload p in a request header."""
     if has_surrogate(p):
         return 'x' if via != 'raw' else to_wsgi_latin1(p)
+    if via == 'bad':
+        # an encoded word that cannot be decoded (invalid UTF-8 / unknown charset): process_headers answers 400
+        body = rfc2047_qword(p)[10:-2]
+        return ('=?utf-8?q?%s=FF?=' % body) if len(p) % 2 else ('=?x-nope?q?%s?=' % body)
     if via == 'b':
         return rfc2047_word(p)
     if via == 'q':
@@ -235,7 +280,7 @@ def gen_case(rng):
     if sink == 'ckattr':
         case['attr'] = rng.choice(COOKIE_ATTRS)
     if sink in ('redirect', 'redirect2', 'hostredir', 'proxybase'):
-        case['rstatus'] = rng.choice([None, None, 300, 301, 302, 303, 307, 308, 305, 304])
+        case['rstatus'] = rng.choice([None, None, 300, 301, 302, 303, 307, 308, 305, 304, 306])
     if sink in ('errmsg', 'errmsg_tb', 'errreason', 'errfail'):
         case['code'] = rng.choice([400, 401, 403, 404, 405, 410, 418, 500, 503, 599])
     if sink == 'multi':
@@ -244,6 +289,16 @@ def gen_case(rng):
         case['name'] = rng.choice(HEADER_NAMES)
     if sink in VIA_SINKS:
         case['via'] = rng.choice(VIAS)
+    if sink in ('errmsg', 'errreason', 'nf_raise') and rng.random() < 0.3:
+        case['pre'] = rng.choice(['Content-Range', 'Vary', 'ETag', 'Location', 'X-Probe'])   # set before the error
+    if sink in ('hv', 'ckval', 'echo') and rng.random() < 0.15:
+        case['stream'] = True
+    if sink == 'errcall':
+        case['ret'] = rng.choice(['str', 'str', 'bytes', 'iter', 'int'])
+    if sink in ('xff', 'xfproto', 'proxybase'):
+        case['pxdebug'] = rng.random() < 0.3
+    if sink == 'sesscfg':
+        case['flags'] = rng.choice([[], [], ['secure'], ['httponly'], ['secure', 'httponly']])
     if sink in ('resphdr',):
         case['name'] = rng.choice(HEADER_NAMES)
     if sink in ('errtpl', 'errcall'):
@@ -296,6 +351,11 @@ def _get_app():
                 resp.cookie[key][a] = av
         if plan.get('status') is not None:
             resp.status = plan['status']
+        if plan.get('stream'):
+            resp.stream = True
+        if plan.get('echo_cookies'):
+            for k, m in sorted(req.cookie.items()):
+                resp.cookie[k] = m.value
         for nm in plan.get('access', []):
             req.headers.get(nm)                     # tools.autovary records the names the handler looked at
         if plan.get('basic_auth') is not None:
@@ -357,9 +417,17 @@ def _get_app():
     def working_error_page(**kwargs):
         # a custom error page as an application writes one: it trusts the values it is handed
         state['obs']['errcall_kwargs'] = dict(kwargs)
-        return ERRCALL_TEMPLATE % kwargs
+        page = ERRCALL_TEMPLATE % kwargs
+        ret = state['plan'].get('errcall_ret', 'str')
+        if ret == 'bytes':
+            return page.encode('utf-8')
+        if ret == 'iter':
+            return iter([page[:7], page[7:]])
+        if ret == 'int':
+            return 7                      # not a page: get_error_page falls back to the built-in one
+        return page
 
-    for nm in ('rh', 'al', 'av', 'et', 'et4', 'ec'):
+    for nm in ('rh', 'al', 'av', 'et', 'et4', 'ec', 'pxd', 'p2'):
         setattr(Root, nm, cherrypy.expose(lambda self, *a, **kw: act()))
     import atexit
     import shutil
@@ -389,6 +457,10 @@ def _get_app():
         '/et': {'error_page.default': files['tpl_default'], 'request.show_tracebacks': False},
         '/et4': {'error_page.404': files['tpl_404'], 'request.show_tracebacks': True},
         '/ec': {'error_page.default': working_error_page, 'request.show_tracebacks': False},
+        '/pxd': {'tools.proxy.on': True, 'tools.proxy.debug': True, 'tools.proxy.scheme': 'X-Forwarded-Ssl',
+                 'request.show_tracebacks': False},
+        '/p2': {'tools.trailing_slash.extra': True, 'tools.trailing_slash.debug': True,
+                'request.show_tracebacks': False},
         '/': {'request.show_tracebacks': False},
         '/tb': {'request.show_tracebacks': True},
         '/sess': {'tools.sessions.on': True, 'tools.sessions.path_header': 'X-Path',
@@ -451,7 +523,7 @@ def build_request(case):
         plan['raise'] = ['redirect', 'target', case.get('rstatus')]
     elif sink == 'proxybase':
         # tools.proxy copies X-Forwarded-Host into request.base WITHOUT SanitizedHost
-        path = '/px'
+        path = '/pxd' if case.get('pxdebug') else '/px'
         env['HTTP_X_FORWARDED_HOST'] = enc_req(p, via)
         plan['raise'] = ['redirect', 'target?' + p[:8], case.get('rstatus')]
     elif sink == 'errmsg':
@@ -490,13 +562,26 @@ def build_request(case):
         env['HTTP_USER_AGENT'] = to_wsgi_latin1(p2)
     elif sink == 'xff':
         # tools.proxy: X-Forwarded-For becomes request.remote.ip, i.e. the {h} atom of the access log
-        path = '/px'
+        path = '/pxd' if case.get('pxdebug') else '/px'
         env['HTTP_X_FORWARDED_FOR'] = enc_req(p, via)
     elif sink == 'xfproto':
-        # tools.proxy: X-Forwarded-Proto becomes the scheme of request.base, i.e. of every absolute redirect
-        path = '/px'
-        env['HTTP_X_FORWARDED_PROTO'] = enc_req(p, via)
+        # tools.proxy: X-Forwarded-Proto (or X-Forwarded-Ssl: on) becomes the scheme of request.base, i.e. of
+        # every absolute redirect
+        path = '/pxd' if case.get('pxdebug') else '/px'
+        env['HTTP_X_FORWARDED_SSL' if case.get('pxdebug') else 'HTTP_X_FORWARDED_PROTO'] = \
+            'on' if (case.get('pxdebug') and len(p) % 2) else enc_req(p, via)
         plan['raise'] = ['redirect', 'target', None]
+    elif sink == 'hdrname400':
+        # a client-chosen header NAME (the WSGI layer turns HTTP_<NAME> into <Name>) with an undecodable word:
+        # the name is shown in the 400 page
+        env['HTTP_' + to_wsgi_latin1(p).upper().replace('-', '_')] = enc_req('x', 'bad')
+    elif sink == 'cookiehdr':
+        # the request's Cookie header: an illegal key is quoted in the 400 page; legal ones are echoed back
+        env['HTTP_COOKIE'] = to_wsgi_latin1(p) + ('=1' if len(p) % 2 else '')
+        plan['echo_cookies'] = True
+    elif sink == 'slashextra':
+        path = '/p2/'
+        qs = to_wsgi_latin1(p)
     elif sink == 'hostlog':
         env['HTTP_HOST'] = enc_req(p, via)
     elif sink == 'resphdr':
@@ -525,6 +610,8 @@ def build_request(case):
         f = case.get('field', 'domain')
         plan['sessinit'] = {'name': 'sid', 'path': '/'}
         plan['sessinit'][f] = p
+        for fl in case.get('flags', []):
+            plan['sessinit'][fl] = True
     elif sink == 'ckname':
         plan['cookies'] = [[p, 'v', {}]]
     elif sink == 'errtpl':
@@ -533,11 +620,18 @@ def build_request(case):
     elif sink == 'errcall':
         path = '/ec'
         plan['raise'] = ['error', case['code'], p]
+        plan['errcall_ret'] = case.get('ret', 'str')
     elif sink == 'tb_exc':
         path = '/tb'
         plan['raise'] = ['value', p]
     else:
         raise common.HarnessError('unknown sink %r' % sink)
+    if case.get('pre'):
+        plan.setdefault('headers', []).append([case['pre'], p, 's'])
+    if case.get('stream'):
+        plan['stream'] = True
+    if case.get('nohost'):
+        env['HTTP_HOST'] = None
     return env, path, qs, plan
 
 
@@ -562,6 +656,8 @@ def run_wsgi(case):
            'wsgi.multithread': False, 'wsgi.multiprocess': False, 'wsgi.run_once': False,
            'wsgi.version': (1, 0), 'HTTP_HOST': 'localhost', 'REMOTE_ADDR': '127.0.0.1'}
     env.update(addenv)
+    for k in [k for k, v in env.items() if v is None]:
+        del env[k]
     out = {}
 
     def start_response(status, headers, exc_info=None):
@@ -798,11 +894,15 @@ def oracle_error_page_failed(body, status_text, message, exc_text):
     start = [i for i, t in enumerate(pg.tags) if t[0] == 's' and t[1] == 'p'][0]
     end = [i for i, t in enumerate(pg.tags) if t == ('e', 'p')][0]
     got = ''.join(pg.text.get(i, '') for i in range(start + 1, end + 1))
-    want = message + 'In addition, the custom error page failed:\n' + \
-        traceback.format_exception_only(ValueError, ValueError(exc_text))[-1]
-    if got != want:
-        return [('failed-custom-error-page text %r does not read back as %r' % (got, want),
-                 'error_page_failure_suffix_unescaped')]
+    # the message first, the exception line last, both verbatim (the sentence in between is the code's wording)
+    if not got.startswith(message):
+        return [('failed-custom-error-page text %r does not start with the message %r read back verbatim'
+                 % (got, message), 'error_page_failure_suffix_unescaped')]
+    if exc_text is not None:
+        want = traceback.format_exception_only(ValueError, ValueError(exc_text))[-1]
+        if not got.endswith(want):
+            return [('failed-custom-error-page text %r does not end with the exception line %r read back verbatim'
+                     % (got, want), 'error_page_failure_suffix_unescaped')]
     return []
 
 
@@ -955,6 +1055,12 @@ def check_wsgi(ctx, case, obs, model_q):
         elif st >= 400 and case['sink'] == 'errfail':
             page_kind = 'error_custom_failed'
             bad += oracle_error_page_failed(obs['body'].rstrip(b' '), obs['src_status'], 'M&m', case['payload'])
+        elif st >= 400 and case['sink'] == 'errcall' and case.get('ret') == 'int' and 'errcall_kwargs' in obs:
+            # the callable returned something that is no page: the built-in page with the failure note
+            page_kind = 'error_custom_failed_type'
+            m = expected_message(case, obs)
+            if m is not None:
+                bad += oracle_error_page_failed(obs['body'].rstrip(b' '), obs['src_status'], m, None)
         elif st >= 400 and case['sink'] == 'errcall' and 'errcall_kwargs' in obs:
             # a WORKING custom error page (callable): the page is the application's, not a built-in one; what
             # CherryPy does is hand it escaped values - compared with the model, no clause of the statement
@@ -1259,11 +1365,24 @@ def run_unit(kind, p, aux=None):
         from cherrypy import _cperror
         status = aux or 404
         fields = {'message': p, 'traceback': p[::-1], 'version': 'V' + p[:3]}
-        body = _cperror.get_error_page(status, **fields)
+        if len(p) % 3 == 0:
+            fields['extra'] = None                 # a keyword the caller left empty
+        if len(p) % 7 == 6:
+            fields['message'] = None               # callers send None: the default message of the status
+        try:
+            body = _cperror.get_error_page(status, **fields)
+        except cherrypy.HTTPError:
+            # an illegal status (e.g. '99 x'): get_error_page refuses with HTTPError(500); nothing is emitted here
+            try:
+                httputil.valid_status(status)
+            except ValueError:
+                return q, bad
+            raise
         code, reason, defmsg = httputil.valid_status(status)
         st = '%s %s' % (code, reason)
-        bad += oracle_error_page(body, st, p or defmsg, p[::-1])
-        q.append(('errpage %s %s %s %s' % (T(st), T(p or defmsg), T(p[::-1]), T(fields['version'])),
+        shown = fields['message'] or defmsg
+        bad += oracle_error_page(body, st, shown, p[::-1])
+        q.append(('errpage %s %s %s %s' % (T(st), T(shown), T(p[::-1]), T(fields['version'])),
                   'ok ' + H(body), 'get_error_page bytes'))
     elif kind == 'redir':
         req, resp = _fresh_serving()
@@ -1296,6 +1415,9 @@ def run_unit(kind, p, aux=None):
         if atoms['a']:
             dict.__setitem__(req.headers, 'User-Agent', atoms['a'])
         resp.output_status = b'200 OK'
+        if len(p) % 5 == 4:
+            resp.output_status = None              # access() before finalize: the status atom is '-'
+            atoms['s'] = '-'
         dict.__setitem__(resp.headers, 'Content-Length', '5')
         lm.access()
         lines = list(cap.records)
@@ -1364,7 +1486,8 @@ def gen_unit_cases(rng, n):
         if kind == 'finalize':
             aux = rng.choice(COOKIE_ATTRS)
         elif kind == 'errpage':
-            aux = rng.choice([400, 404, 500, '404 ' + gen_payload(rng, 2).strip() if rng.random() < 0.5 else 403])
+            aux = rng.choice([400, 404, 500, '404 ' + gen_payload(rng, 2).strip() if rng.random() < 0.5 else 403,
+                              '99 x', 'abc'])
             if isinstance(aux, str) and (has_surrogate(aux)):
                 aux = 404
         elif kind == 'redir':
@@ -1446,6 +1569,7 @@ def _worker(args):
     ctx = common.Ctx(mod, 'thorough', seed)
     ctx.rng = random.Random(seed)
     ctx.lean = _WORKER_LEAN[0]
+    c12_cov.start()
     run_wsgi_cases(ctx, [gen_case(ctx.rng) for _ in range(n_wsgi)])
     run_unit_cases(ctx, gen_unit_cases(ctx.rng, n_unit))
     # exhaustive: all 2-octet Latin-1 strings whose first octet is in [lo, hi)
@@ -1464,13 +1588,15 @@ def _worker(args):
     return {'evaluations': ctx.evaluations, 'nontrivial': list(ctx._nontrivial), 'hist': ctx.hist,
             'oracle_failures': ctx.oracle_failures[:20], 'disagreements': ctx.disagreements[:20],
             'compared': ctx.disagreements_checked, 'known_seen': ctx.known_seen, 'lines': ctx.driver.lines,
-            'exhaustive2': len(ex)}
+            'exhaustive2': len(ex), 'cov': sorted(c12_cov.seen_labels())}
 
 
 _WORKER_LEAN = [None]
 
 
 def run(ctx):
+    _get_app()
+    c12_cov.start()                 # which lines of the anchored functions do the cases below execute?
     # 1. known findings: replay the recorded witnesses
     for e in ctx.known:
         if e.get('status') == 'known' and e.get('witness'):
@@ -1489,6 +1615,17 @@ def run(ctx):
            for pl in ('\ud800', 'a\udfff\r\nb<', '\u8200\udc80"')
            for pr in ('HTTP/1.0', 'HTTP/1.1')]
     run_wsgi_cases(ctx, sur)
+    # HTTP/1.1 without Host (400), HTTP/1.0 without Host (served), each with a payload in the log atoms
+    run_wsgi_cases(ctx, [{'kind': 'wsgi', 'sink': 'referer', 'payload': pl, 'proto': pr, 'nohost': True, 'via': 'raw'}
+                         for pl in ('x', 'a"\r\nb\\', '<i>') for pr in ('HTTP/1.0', 'HTTP/1.1')])
+    # path_header configured but the header empty after stripping: the cookie path falls back to '/'
+    run_wsgi_cases(ctx, [{'kind': 'wsgi', 'sink': 'sesspath', 'payload': ' ', 'proto': 'HTTP/1.1', 'via': 'raw'}])
+    ctx.extra['anchored_lines_explained'] = {
+        'httputil.HeaderMap.encode:raise ValueError': 'dead with the live switches (theorem encode_total)',
+        'httputil.CaseInsensitiveDict.transform_key:return "None"': 'key None: only an application can pass it',
+        'sessions.set_response_cookie:raise ValueError(httponly)': 'only on a Python whose Morsel lacks httponly',
+    }
+    cov_extra = []
     if ctx.quick():
         run_wsgi_cases(ctx, [gen_case(ctx.rng) for _ in range(8000)])
         run_unit_cases(ctx, gen_unit_cases(ctx.rng, 8000))
@@ -1512,11 +1649,16 @@ def run(ctx):
             ctx.known_seen.update(r['known_seen'])
             ctx.driver.lines += r['lines']
             ex2 += r['exhaustive2']
+            cov_extra += r.get('cov', [])
         ctx.extra['exhaustive_small_scope'] = ('all 1-octet and all 65536 2-octet Latin-1 strings through '
                                                'encode_header_item, Response.finalize (status/header/cookie) and '
                                                'LogManager.access; those containing a control, markup, quote or '
                                                'non-ASCII octet also through get_error_page and '
                                                'HTTPRedirect.set_response: %d unit runs' % ex2)
+    missed = c12_cov.report(cov_extra)
+    if missed is not None:
+        ctx.extra['anchored_lines_not_executed'] = missed
+        ctx.extra['anchored_lines_total'] = len(c12_cov.all_lines())
 
 
 def search(ctx, around=None):
